@@ -48,7 +48,7 @@ class TicketType(MichelsonType, prim='ticket', args_len=1):
         if left.ticketer != right.ticketer or left.item != right.item:
             return None
         else:
-            return TicketType(ticketer=left.ticketer, item=left.item, amount=left.amount + right.amount)
+            return type(left)(ticketer=left.ticketer, item=left.item, amount=left.amount + right.amount)
 
     @classmethod
     def generate_pydoc(cls, definitions: List[Tuple[str, str]], inferred_name=None, comparable=False) -> str:
@@ -98,6 +98,6 @@ class TicketType(MichelsonType, prim='ticket', args_len=1):
         if amount_left <= 0 or amount_right <= 0 or amount_left + amount_right != self.amount:
             return None
         else:
-            left = TicketType(ticketer=self.ticketer, item=copy(self.item), amount=amount_left)
-            right = TicketType(ticketer=self.ticketer, item=copy(self.item), amount=amount_right)
+            left = type(self)(ticketer=self.ticketer, item=copy(self.item), amount=amount_left)
+            right = type(self)(ticketer=self.ticketer, item=copy(self.item), amount=amount_right)
             return left, right
